@@ -96,7 +96,9 @@ impl Program {
 
     pub fn link(&mut self) -> (Address, Arc<Vec<Error>>, Arc<Vec<Error>>) {
         match self.link.last() {
-            Some(Opcode::End) => {}
+            // A final END is enough unless something can still land behind it:
+            // `IF X THEN END`, or a line after it that compiles to nothing.
+            Some(Opcode::End) if !self.link.has_label_at_end() => {}
             _ => {
                 if let Err(error) = self.link.push(Opcode::End) {
                     Arc::make_mut(&mut self.errors).push(error);
